@@ -83,7 +83,7 @@ def run_shim(producer, work, spec, timeout=300):
 
 
 class Op:
-    __slots__ = ("name", "j", "kind", "cls", "path", "src", "srccls", "mode", "fd", "ret", "err", "injected", "killed", "text")
+    __slots__ = ("name", "j", "kind", "cls", "path", "src", "srccls", "mode", "fd", "ret", "err", "injected", "killed", "text", "watched")
 
     def brief(self):
         return "%s %s%s%s" % (self.name, ("%s->" % self.srccls) if self.kind == "rename" else "", self.cls,
@@ -91,8 +91,14 @@ class Op:
 
 
 def parse(log, outdir, final):
-    """-> (main pid, list of Op inside the markers for the main pid, killed?, complete window?)"""
+    """-> (main pid, watched ops, killed?, complete window?, all ops)
+
+    watched ops: the calls of the main pid inside the markers that touch the output directory -
+    these are the fault positions.  all ops additionally contains the calls on other paths of
+    the work directory (TMPDIR, ...; class "ext"): a temp file may live anywhere, abstract() needs
+    its open/write/close when it is later renamed onto the final name."""
     outdir = os.path.realpath(outdir)
+    work = os.path.dirname(outdir)
     with open(log, errors="replace") as f:
         raw = f.read().splitlines()
     # merge "<unfinished ...>" with its "<... resumed>" line
@@ -147,7 +153,7 @@ def parse(log, outdir, final):
             continue
         if not inside or name in ("newfstatat", "stat"):
             continue
-        op = _classify(name, args, outdir, final)
+        op = _classify(name, args, outdir, final, work)
         if op is None:
             continue
         op.j = counts[(pid, name)]
@@ -155,16 +161,22 @@ def parse(log, outdir, final):
         ops.append(op)
     # the counters above were keyed by pid; recompute j for the main pid only (lines of other
     # pids were skipped once main was known, earlier ones are start-up of the same process)
-    return main, ops, killed, ended
+    return main, [o for o in ops if o.watched], killed, ended, ops
 
 
 def _inside(path, outdir):
     return path == outdir or path.startswith(outdir + "/")
 
 
-def _cls(path, outdir, final, isdir=False):
+def _in_work(path, work):
+    """Inside the run's work directory but not an input and not strace's own log."""
+    return (path.startswith(work + "/") and not path.startswith(work + "/in/") and path != work + "/in"
+            and path != work + "/strace.txt")
+
+
+def _cls(path, outdir, final, isdir=False, work=None):
     if not _inside(path, outdir):
-        return "outside"
+        return "ext" if work and _in_work(path, work) else "outside"
     if path == final:
         return "final"
     if os.path.dirname(path) == outdir and not isdir:
@@ -172,8 +184,9 @@ def _cls(path, outdir, final, isdir=False):
     return "sub"
 
 
-def _classify(name, args, outdir, final):
+def _classify(name, args, outdir, final, work):
     op = Op()
+    op.watched = True
     op.name, op.kind, op.mode, op.src, op.srccls, op.fd = name, None, "-", None, "-", None
     op.injected = "(INJECTED)" in args
     mret = re.search(r"\)\s+= (-?\d+|\?)", args)
@@ -193,18 +206,20 @@ def _classify(name, args, outdir, final):
             return None
         path = resolve(base, strs[0])
         if not _inside(path, outdir):
-            return None
+            if not _in_work(path, work):
+                return None
+            op.watched = False
         flags = args
         isdir = "O_DIRECTORY" in flags
         op.kind, op.path = "open", path
-        op.cls = _cls(path, outdir, final, isdir)
+        op.cls = _cls(path, outdir, final, isdir, work)
         if "O_EXCL" in flags:
             op.mode = "excl"
         elif any(x in flags for x in ("O_WRONLY", "O_RDWR", "O_CREAT", "O_TRUNC", "O_APPEND")) or name == "creat":
             op.mode = "trunc"
         else:
             op.mode = "ro"
-        if isdir:
+        if isdir and op.watched:
             op.cls = "sub"
         mfd = re.search(r"= (\d+)<", args)
         op.fd = int(mfd.group(1)) if mfd else None
@@ -213,17 +228,16 @@ def _classify(name, args, outdir, final):
         if not fds:
             return None
         if name == "copy_file_range":
-            cand = [f for f in fds if _inside(f[1], outdir)]
             tgt = fds[1] if len(fds) > 1 else fds[0]
-            if not cand:
-                return None
         else:
             tgt = fds[0]
         if not _inside(tgt[1], outdir):
-            return None
+            if not _in_work(tgt[1], work):
+                return None
+            op.watched = False
         op.kind = "write" if (name in WRITE_CALLS or name == "ftruncate") else ("close" if name == "close" else "sync")
         op.path, op.fd = tgt[1], tgt[0]
-        op.cls = _cls(tgt[1], outdir, final, os.path.isdir(tgt[1]) and False)
+        op.cls = _cls(tgt[1], outdir, final, False, work)
         return op
     if name in ("rename", "renameat", "renameat2", "link", "linkat", "symlink", "symlinkat"):
         if len(strs) < 2:
@@ -238,10 +252,12 @@ def _classify(name, args, outdir, final):
         else:
             a, b = resolve(b1, strs[0]), resolve(b2, strs[1])
         if not (_inside(a, outdir) or _inside(b, outdir)):
-            return None
+            if not (_in_work(a, work) or _in_work(b, work)):
+                return None
+            op.watched = False
         op.kind = "rename" if name.startswith("rename") else "link"
         op.src, op.path = a, b
-        op.srccls, op.cls = _cls(a, outdir, final), _cls(b, outdir, final)
+        op.srccls, op.cls = _cls(a, outdir, final, False, work), _cls(b, outdir, final, False, work)
         return op
     if name in ("unlink", "unlinkat", "rmdir", "mkdir", "mkdirat"):
         if not strs:
@@ -249,11 +265,13 @@ def _classify(name, args, outdir, final):
         base = fds[0][1] if (name in ("unlinkat", "mkdirat") and fds) else None
         path = resolve(base, strs[0])
         if not _inside(path, outdir):
-            return None
+            if not _in_work(path, work):
+                return None
+            op.watched = False
         isdir = name in ("rmdir", "mkdir", "mkdirat") or "AT_REMOVEDIR" in args
         op.kind = "unlink" if name in ("unlink", "unlinkat") and not isdir else "dirop"
         op.path = path
-        op.cls = _cls(path, outdir, final, isdir)
+        op.cls = _cls(path, outdir, final, isdir, work)
         return op
     return None
 
@@ -262,19 +280,58 @@ def signature(ops):
     return [(o.name, o.kind, o.cls, o.srccls, o.mode) for o in ops]
 
 
-def abstract(ops, killed, rc):
-    """Ops of one run -> event list of AtomicPublishTrace (see the module header)."""
+def abstract(ops, killed, rc, foreign_dirs=()):
+    """All ops of one run (parse()[4]) -> (events of AtomicPublishTrace, expect, two handles?, untracked?).
+
+    The statement does not say where the temporary file lives.  Every path that this run renames
+    onto the final name is a "tmp" of the model wherever it is (a direct child of the output
+    directory, inside a sub-directory of it, elsewhere in the work directory), and its
+    open/write/close are part of the trace; direct children of the output directory are "tmp"
+    as well (a temp left behind by a failed run).  Exception: a source inside one of
+    foreign_dirs - the system temp directory (TMPDIR), which nothing ties to the file system of
+    the output - or outside the work directory stays "outside": a rename from there is not an
+    atomic publication one can rely on.  A rename from a tmp that this trace never saw being
+    opened for writing (created by another process, through a link, ...) makes the trace
+    `untracked`: no verdict is derived from it, the reader check of the fault enumeration decides."""
+    pubsrc = {o.src for o in ops if o.kind == "rename" and o.cls == "final" and o.src}
+
+    def foreign(path):
+        return any(path == d or path.startswith(d + "/") for d in foreign_dirs)
+
+    def klass(path, base):
+        if base == "final":
+            return "final"
+        if path in pubsrc:
+            return "outside" if (base == "outside" or foreign(path)) else "tmp"
+        return base                                   # tmp | sub | ext | outside
     ev = []
     wfd = {}          # fd -> opened for writing on a tmp/final path
+    written = set()   # tmp paths this trace opened for writing
     last_write_fd = None
     multi = False
+    untracked = False
 
     def push(op, p, src="-", mode="-", err=False):
         ev.append({"op": op, "p": p, "src": src, "mode": mode, "err": bool(err)})
     for o in ops:
         if o.killed:
             break
-        if o.cls == "sub" and o.kind != "rename":
+        cls = klass(o.path, o.cls)
+        if o.kind == "rename":
+            srccls = klass(o.src, o.srccls)
+            if cls != "final" and srccls != "final":
+                if o.err and o.watched:
+                    push("suberr", "sub", err=True)
+                continue                               # renames among other paths
+            if srccls == "tmp" and o.src not in written:
+                untracked = True
+            push("rename", cls if cls in ("final", "tmp") else "outside",
+                 src=srccls if srccls in ("final", "tmp") else "outside", err=o.err)
+            last_write_fd = None
+            continue
+        if cls == "ext" or cls == "outside":
+            continue                                   # not on the output directory, never published
+        if cls == "sub":
             if o.err:
                 push("suberr", "sub", err=True)
                 last_write_fd = None
@@ -288,37 +345,35 @@ def abstract(ops, killed, rc):
                 if wfd:
                     multi = True
                 wfd[o.fd] = True
-            push("open", o.cls, mode=o.mode, err=o.err)
+                written.add(o.path)
+            push("open", cls, mode=o.mode, err=o.err)
             last_write_fd = None
         elif o.kind == "write":
+            if o.fd not in wfd:
+                continue
             if o.err:
-                push("write", o.cls, err=True)
+                push("write", cls, err=True)
                 last_write_fd = None
             elif last_write_fd != o.fd:
-                push("write", o.cls)
+                push("write", cls)
                 last_write_fd = o.fd
         elif o.kind == "close":
             if wfd.pop(o.fd, None):
-                push("close", o.cls, err=o.err)
+                push("close", cls, err=o.err)
                 last_write_fd = None
-        elif o.kind == "rename":
-            if o.cls == "sub" and o.srccls == "sub":
-                continue
-            push("rename", o.cls, src=o.srccls, err=o.err)
-            last_write_fd = None
         elif o.kind == "unlink":
-            push("unlink", o.cls, err=o.err)
+            push("unlink", cls, err=o.err)
             last_write_fd = None
         elif o.kind == "link":
-            push("link", o.cls, src=o.srccls, err=o.err)
-        # sync / dirop on tmp level: no effect on content
+            push("link", cls, src=klass(o.src, o.srccls), err=o.err)
+        # sync / dirop: no effect on content
     if killed:
         push("kill", "-")
         expect = "killed"
     else:
         expect = "done" if rc == 0 else "failed"
     push("end", "-")
-    return ev, expect, multi
+    return ev, expect, multi, untracked
 
 
 def dump_batch(path, traces):
